@@ -68,6 +68,12 @@ RowsOK(r) ==
    IN  /\ Len(r.rows) = Cardinality(PhysCpus)
        /\ \E f \in Choices(Both) : RowsShown(r) = RowsOf(f)
 
+\* the rows are NOT explained by the tri formula alone (only evaluated with AllowStale)
+NeedsStale(r) ==
+   LET V == ObsView(r)
+       Strict(c) == {Tri(ObsIdle(V, c), PureTr(ObsSS(V, c), ObsTT(V, c)))} \cap Cand(c, FALSE)'
+   IN  ~\E f \in Choices(Strict) : RowsShown(r) = RowsOf(f)
+
 \* only rows that change are written (a row without any line yet holds "nothing")
 WrittenOK(r) ==
    /\ \A i \in 1..Len(r.wr) : /\ r.wr[i][1] \in 1..Len(prow)
@@ -81,6 +87,7 @@ TEv == /\ Is("ev")
              /\ (ObsView(Rec) \ CpuDefaultCells') = ViewAll'
              /\ RowsOK(Rec)
              /\ WrittenOK(Rec)
+             /\ (AllowStale /\ NeedsStale(Rec)) => PrintT(<<"STALE", ToString(l)>>)
        /\ prow' = IF Len(Rec.rows) = Len(prow) THEN Rec.rows ELSE prow
 
 TEnd == /\ Is("end")
